@@ -45,6 +45,15 @@ func genPES(r *gen.Rand, sid int, ptsdts byte) ref.PES {
 	if ref.PESNoOptionalHeader(h.StreamID) && len(h.Payload) == 0 {
 		h.Payload = r.Bytes(1 + r.Intn(8))
 	}
+	if r.Chance(6) {
+		// the PES bytes fill the packet payload (no adaptation field) or leave 1..3 bytes: in a packet the
+		// adaptation field in front of them then has length 0 (a single stuffing byte), 1 or 2
+		h.Payload = nil
+		b0, _ := h.Bytes()
+		if want := r.PickInt([]int{183, 183, 184, 182, 181}); want > len(b0) {
+			h.Payload = r.Bytes(want - len(b0))
+		}
+	}
 	if r.Chance(2) {
 		// PES_packet_length as ISO defines it: the number of bytes that follow the field
 		b, _ := h.Bytes()
@@ -183,6 +192,9 @@ func packetLevel(c *mon.Ctx, r *gen.Rand, h *ref.PES, b []byte, hdrEnd int) {
 			c.Fail("packet:aligned-pusi-data", "AlignedPUSI did not return the PES data bytes", w(&snap, ""))
 		}
 		c.Count(fmt.Sprintf("aligned_pusi.%v", ok))
+		if len(b) == 183 {
+			c.Count("packet.adaptation_field_length_0")
+		}
 	}
 	if p != snap {
 		c.Fail("packet:input-modified", "a packet-level PES accessor modified the packet", w(&snap, ""))
@@ -218,6 +230,7 @@ func packetLevel(c *mon.Ctx, r *gen.Rand, h *ref.PES, b []byte, hdrEnd int) {
 func run(c *mon.Ctx) {
 	c.Rule("PES starts built by a reference builder: all 256 stream ids x PTS_DTS_flags {00,10,11} x flag bytes x PES_header_data_length = needed..255 (extra optional / stuffing bytes) x payload 0..23 bytes, each also carried in a transport packet (PUSI on/off, damaged start code, no payload flag) and short payloads 0..5 bytes. distinct non-trivial = distinct (stream id, PTS_DTS_flags, has extra header bytes, has payload, data_alignment) for headers with at least one optional or payload byte")
 	c.Assume("stream_id 0xBC (program_stream_map) is exercised for totality only; AlignedPUSI is asserted only for stream ids that carry the optional header and complete headers (>= 9 bytes)")
+	c.Floor("packet.adaptation_field_length_0", 200)
 	c.Floor("aligned_pusi.true", 500)
 	c.Floor("aligned_pusi.false", 500)
 	per := c.N(40, 60000)
